@@ -259,21 +259,84 @@ example : (mpf_mul_ui 0 (mkSt r5 default default) .r (B - 1)).ok = true := by de
 -- negative: `prec = r->_mp_prec + 1` keeps three limbs and stores the carry at rp[3]
 example : (mpf_mul_ui 1 (mkSt r2 u5 default) .u (B - 1)).ok = false := by decide
 
-/-- mpf_add (r, u, v) (mpf/add.c), operands of equal sign or a zero operand, every operand length and exponent, every alias
-    pattern (u, v ∈ {r, u, v}: r == u, r == v, u == v, all three).  PARTIAL — proved: no load or store leaves a block (the
-    operands are read inside their |SIZ| limbs after the two cuts to `prec` limbs; the three alignments fill at most `prec`
-    limbs of the TMP area of `prec` limbs; MPN_COPY (rp, tp, rsize) and the UNCONDITIONAL store `rp[rsize] = cy` use
-    indices ≤ PREC, inside the PREC + 1 limbs; the early copy of the `ediff >= prec` case copies ≤ PREC limbs), the other
-    variables, PREC (r) and the block length are unchanged.
-    Missing (run only, ops `as7_add`): `s'.r.view = Mpf.add s.r.prec (us = .r) (vs = .r) (s.obj us).view (s.obj vs).view`
-    and hence `Mpf.WF s'.r.view`; the zero-operand paths are covered by `mpf_set_dest_safe`. -/
-theorem mpf_add_dest_safe_partial (s : St) (us vs : Src) (hs : s.ok = true) (hr : DestWF s.r)
-    (hu : OpndWF (s.obj us)) (hv : OpndWF (s.obj vs)) :
+/-- mpf_add (r, u, v) (mpf/add.c), operands of equal sign or a zero operand (different signs: the call goes to mpf_sub,
+    `mpf_add = none`), every operand length and exponent, every alias pattern (u, v ∈ {r, u, v}: r == u, r == v, u == v, all
+    three): no load or store leaves a block — the operands are read inside their |SIZ| limbs after the two cuts to `prec`
+    limbs; the three alignments fill at most `prec` limbs of the TMP area of `prec` limbs; MPN_COPY (rp, tp, rsize) and the
+    UNCONDITIONAL store `rp[rsize] = cy` use indices ≤ PREC, inside the PREC + 1 limbs; the early copy of the
+    `ediff >= prec` case copies ≤ PREC limbs (none when rp == up) —, the other variables, PREC (r) and the block length are
+    unchanged, and SIZ, EXP and the limbs are those of the bit-exact C13 model `Mpf.add` (with its `r == u`, `r == v` flags).
+    Hypotheses: the operands' limbs are proper limbs (`Limbs`, part of `Mpf.OpWF`). -/
+theorem mpf_add_dest_safe (s : St) (us vs : Src) (hs : s.ok = true) (hr : DestWF s.r)
+    (hu : OpndWF (s.obj us)) (hv : OpndWF (s.obj vs)) (hlu : Limbs (s.obj us).view.d) (hlv : Limbs (s.obj vs).view.d) :
     ∀ s', mpf_add 0 s us vs = some s' →
-      s'.ok = true ∧ s'.u = s.u ∧ s'.v = s.v ∧ s'.r.prec = s.r.prec ∧ s'.r.blk.alloc = s.r.blk.alloc ∧ BlkWF s'.r.blk := by
+      s'.ok = true ∧ s'.u = s.u ∧ s'.v = s.v ∧ s'.r.prec = s.r.prec ∧ s'.r.blk.alloc = s.r.blk.alloc ∧ BlkWF s'.r.blk ∧
+      s'.r.view = Mpf.add s.r.prec (decide (us = .r)) (decide (vs = .r)) (s.obj us).view (s.obj vs).view := by
   intro s' h
   have F := mpf_add_frame s us vs hs hr hu hv s' h
-  exact ⟨F.ok, F.u, F.v, F.prec, F.alloc, F.wf⟩
+  refine ⟨F.ok, F.u, F.v, F.prec, F.alloc, F.wf, ?_⟩
+  unfold mpf_add at h
+  unfold Mpf.add
+  simp only at h
+  by_cases hu0 : (s.obj us).size = 0
+  · rw [if_pos hu0] at h
+    rw [if_pos (show (s.obj us).view.size = 0 from hu0)]
+    cases h
+    by_cases hv : vs = .r
+    · subst hv; simp [St.obj, FObj.view]
+    · simp only [hv, ne_eq, not_false_eq_true, if_true, decide_false, Bool.false_eq_true, if_false]
+      exact (mpf_set_dest_safe s vs hs hr ‹_›).2.2.2.2.2.2.1
+  · rw [if_neg hu0] at h
+    rw [if_neg (show ¬ (s.obj us).view.size = 0 from hu0)]
+    by_cases hv0 : (s.obj vs).size = 0
+    · rw [if_pos hv0] at h
+      rw [if_pos (show (s.obj vs).view.size = 0 from hv0)]
+      cases h
+      by_cases hu' : us = .r
+      · subst hu'; simp [St.obj, FObj.view]
+      · simp only [hu', ne_eq, not_false_eq_true, if_true, decide_false, Bool.false_eq_true, if_false]
+        exact (mpf_set_dest_safe s us hs hr ‹_›).2.2.2.2.2.2.1
+    · rw [if_neg hv0] at h
+      rw [if_neg (show ¬ (s.obj vs).view.size = 0 from hv0)]
+      by_cases hsg : (decide ((s.obj us).size < 0) != decide ((s.obj vs).size < 0)) = true
+      · rw [if_pos hsg] at h; cases h
+      · rw [if_neg hsg] at h
+        rw [if_neg (show ¬ ((decide ((s.obj us).view.size < 0) != decide ((s.obj vs).view.size < 0)) = true) from hsg)]
+        cases h
+        unfold Mpf.addSame
+        by_cases sw : (s.obj us).exp < (s.obj vs).exp
+        · have sw' : (s.obj us).view.exp < (s.obj vs).view.exp := sw
+          simp only [sw, sw', decide_true, if_true]
+          rw [addSameSign_view s _ vs us hs hr hv hu (by omega) hlv hlu]
+          simp [FObj.view]
+          by_cases hn : (s.obj us).size < 0 <;> simp [hn]
+        · have sw' : ¬ (s.obj us).view.exp < (s.obj vs).view.exp := sw
+          simp only [sw, sw', decide_false, Bool.false_eq_true, if_false]
+          rw [addSameSign_view s _ us vs hs hr hu hv (by omega) hlu hlv]
+          simp [FObj.view]
+          by_cases hn : (s.obj us).size < 0 <;> simp [hn]
+
+
+/-- mpf_add, non-zero operands of equal sign: the result header is well formed (|SIZ| ≤ PREC + 1, top limb non-zero). -/
+theorem mpf_add_dest_wf (s : St) (us vs : Src) (hs : s.ok = true) (hr : DestWF s.r) (hp : 1 ≤ s.r.prec)
+    (hu : OpndWF (s.obj us)) (hv : OpndWF (s.obj vs)) (hou : Mpf.OpWF (s.obj us).view) (hov : Mpf.OpWF (s.obj vs).view)
+    (hu0 : (s.obj us).size ≠ 0) (hv0 : (s.obj vs).size ≠ 0) (hsg : (s.obj us).size < 0 ↔ (s.obj vs).size < 0) :
+    ∀ s', mpf_add 0 s us vs = some s' → Mpf.WF s'.r.view := by
+  intro s' h
+  rw [(mpf_add_dest_safe s us vs hs hr hu hv hou.1 hov.1 s' h).2.2.2.2.2.2]
+  have e : Mpf.add s.r.prec (decide (us = .r)) (decide (vs = .r)) (s.obj us).view (s.obj vs).view =
+      Mpf.addSame s.r.prec (s.obj us).view (s.obj vs).view := by
+    unfold Mpf.add
+    rw [if_neg (show ¬ (s.obj us).view.size = 0 from hu0), if_neg (show ¬ (s.obj vs).view.size = 0 from hv0)]
+    have : ¬ ((decide ((s.obj us).view.size < 0) != decide ((s.obj vs).view.size < 0)) = true) := by
+      simp only [FObj.view]
+      by_cases hn : (s.obj us).size < 0
+      · have := hsg.mp hn; simp [hn, this]
+      · have : ¬ (s.obj vs).size < 0 := fun h => hn (hsg.mpr h)
+        simp [hn, this]
+    rw [if_neg this]
+  rw [e]
+  exact (Mpf.addSame_spec s.r.prec hp _ _ hou hov hu0 hv0 hsg).1
 
 /-- three limbs of ones, exponent 3 -/
 def u3 : FObj := mkObj 0 false 3 [B - 1, B - 1, B - 1] 1
